@@ -60,8 +60,8 @@ def size(trace):
 
 def _gen_scope_init(rng):
     init = {"config": [], "attrs": None}
-    mt = rng.choice([None, None, "nbdime", "meld", "kdiff3"])
-    gt = rng.choice([None, None, "nbdime", "meld", "kdiff3"])
+    mt = rng.choice([None, None, "nbdime", "meld", "kdiff3", "nbdime-web", "my-nbdime"])
+    gt = rng.choice([None, None, "nbdime", "meld", "kdiff3", "nbdime-web", "my-nbdime"])
     if mt:
         init["config"].append(["merge.tool", mt])
     if gt:
@@ -114,7 +114,7 @@ def generate(rng, index, cfg):
             # the user changes a setting between two nbdime commands (switches default tool, flips a prompt, ...)
             key = rng.choice(["merge.tool", "diff.guitool", "difftool.prompt", "mergetool.prompt"] + [k for k, _ in FOREIGN])
             if key in ("merge.tool", "diff.guitool"):
-                val = rng.choice(["meld", "kdiff3", "nbdime", None])
+                val = rng.choice(["meld", "kdiff3", "nbdime", "nbdime-web", "my-nbdime", None])
             elif key.endswith(".prompt"):
                 val = rng.choice(["true", "false", None])
             elif key.endswith((".cmd", ".command", ".driver", ".path", ".name", ".editor", ".co")):
